@@ -71,7 +71,7 @@ def random_cases(draw):
     else:
         values = S.splitmix(draw(st.integers(0, 2 ** 40)), draw(st.integers(6, 12)), max(1, C // 6), (2 * C) // 3)
     return {"alg": "bc", "values": [min(max(v, 1), C) for v in values], "binsize": C,
-            "pres": draw(st.sampled_from(["list", "list", "list", "array", "dict-str", "dict-int", "names"])),
+            "pres": draw(st.sampled_from(["list", "list", "list", "array", "dict-str", "dict-int", "names", "names-array"])),
             "nseed": draw(st.integers(0, 5)), "profile": fam}
 
 
